@@ -43,7 +43,7 @@ LOOSE = ('discover_extra', 'oversized_discover')
 # ------------------------------------------------------------------ gamma tables
 
 GLYPH_CHARS = {
-    1: ['a', ' ', '~', '\x7f', '/', 'Z', '0'],
+    1: ['a', ' ', '~', '/', 'Z', '0'],      # + DEL unless ensure_ascii (see calibrate)
     2: ['"', '\\', '\n', '\r', '\t', '\b', '\f'],
     3: ['\x00', '\x01', '\x1f', '\x0b', '\x0e'],
     4: ['\u00e9', '\u0080', '\u07ff', '\u00df', '\u0416'],
@@ -54,16 +54,19 @@ WIDTHS = {False: {1: (1, 1), 2: (1, 2), 3: (1, 6), 4: (2, 2), 5: (3, 3), 6: (4, 
           True: {1: (1, 1), 2: (1, 2), 3: (1, 6), 4: (2, 6), 5: (3, 6), 6: (4, 12)}}
 
 EQ_IDS = ['eq', 'e"q\\n', 'équip€\U0001f604', '', 'x' * 40, 'ctl\x01\n']
-IFACES = {0: [['ws://8080'], []],
-          1: [['tcp://10767'], ['tcp://65535', 'ws://8080'], ['ws://8010', 'tcp://1']],
-          2: [['tcp://10767', 'tcp://65535'], ['tcp://80', 'ws://8080', 'tcp://7']],
-          3: [['tcp://1', 'tcp://22', 'tcp://333']]}
+# interface lists by (number of TCP ports, 5 - digits of the widest TCP port)
+IFACES = {(0, 4): [['ws://8080'], []],
+          (1, 0): [['tcp://10767'], ['tcp://65535', 'ws://8080']],
+          (1, 4): [['ws://8010', 'tcp://1'], ['tcp://7']],
+          (2, 0): [['tcp://10767', 'tcp://65535'], ['tcp://80', 'ws://8080', 'tcp://10000']],
+          (2, 4): [['tcp://5', 'ws://8080', 'tcp://7']]}
+SHAPES = sorted(IFACES)
 
 NODE_MSG = json.dumps({'SECoP': 'node', 'port': 10767, 'equipment_id': 'eq', 'firmware': 'FRAPPY x',
                        'description': 'discover'}).encode()
 DGRAMS = {
     'discover': [b'{"SECoP": "discover"}', b'{"SECoP":"discover"}', b' {\n "SECoP" :\t"discover"\n}\n',
-                 b'{"SECoP":"\\u0064iscover"}', b'{"\\u0053ECoP":"discover"}'],
+                 b'{"SECoP":"\\u0064iscover"}', b'{"\\u0053ECoP":"discover"}', b'{"SECoP":"discover"}' + b' ' * 1004],
     'object': [NODE_MSG, b'{}', b'{"SECoP":"Discover"}', b'{"secop":"discover"}', b'{"SECoP":1}', b'{"SECoP":null}',
                b'{"SECoP":["discover"]}', b'{"x":{"SECoP":"discover"}}', b'{"SECoP":"discover "}',
                b'{"SECoP":{"SECoP":"discover"}}', b'{"discover":"SECoP"}', b'{"SECoP":true}'],
@@ -89,11 +92,14 @@ DGRAMS = {
 }
 
 
+ASCII_MODE = [False]     # json.dumps(ensure_ascii=True) also escapes DEL
+
+
 def gclass(ch):
     o = ord(ch)
     if ch in '"\\\n\r\t\b\f':
         return 2
-    if o < 0x20:
+    if o < 0x20 or (o == 0x7f and ASCII_MODE[0]):
         return 3
     if o < 0x80:
         return 1
@@ -242,19 +248,25 @@ def calibrate():
     D = disc()
     o = overhead('eq')
     D.MAX_MESSAGE_LEN = 10 ** 6
+
+    def jsonwidth(ch):
+        u = D.UDPListener('eq', ch + 'a' + ch, ['tcp://1'], Log(), startup_broadcast=False)
+        return (len(u._getMessage(65535)) - o - 1) / 2
+    mode = jsonwidth('\u00e9') != 2
+    ASCII_MODE[0] = mode
+    for g in GLYPH_CHARS:
+        GLYPH_CHARS[g] = [c for c in GLYPH_CHARS[g] if c != '\x7f']
+    GLYPH_CHARS[3 if mode else 1].append('\x7f')
     seen = {}
     for g, chars in GLYPH_CHARS.items():
         for ch in chars:
             if gclass(ch) != g:
                 raise MachineryError(f'glyph classifier disagrees with the table for {ch!r}')
-            u = D.UDPListener('eq', ch + 'a' + ch, ['tcp://1'], Log(), startup_broadcast=False)
-            w = len(u._getMessage(65535)) - o - 1
-            seen.setdefault(g, set()).add((len(ch.encode('utf-8')), w / 2))
-    for mode, table in WIDTHS.items():
-        if all(seen[g] == {table[g]} for g in table):
-            return mode
-    raise MachineryError(f'glyph width table of Discovery.tla does not describe the JSON encoding of '
-                         f'_getMessage: measured (raw, json) widths {seen}')
+            seen.setdefault(g, set()).add((len(ch.encode('utf-8')), jsonwidth(ch)))
+    if not all(seen[g] == {WIDTHS[mode][g]} for g in WIDTHS[mode]):
+        raise MachineryError(f'glyph width table of Discovery.tla does not describe the JSON encoding of '
+                             f'_getMessage: measured (raw, json) widths {seen}')
+    return mode
 
 
 # ------------------------------------------------------------------ alpha
@@ -314,16 +326,17 @@ def execute(case):
     mx = REAL_MAX if case['max'] is None else case['max']
     desc = case['desc'] or ''
     ports = [int(i.split('://')[1]) for i in case['ifaces'] if i.startswith('tcp')]
-    ev = {'ev': 'build', 'o': overhead(case['eq']), 'max': mx, 'g': [gclass(c) for c in desc],
-          'nports': len(ports), 'bcast': case['bcast'], 'exc': '', 'enabled': False,
-          'm': alpha_msg(b'', case, ports)}
+    widest = max(ports, default=0)
+    ev = {'ev': 'build', 'o': overhead(case['eq']), 'max': mx, 'sl': 5 - len(str(widest)),
+          'g': [gclass(c) for c in desc], 'nports': len(ports), 'bcast': case['bcast'], 'exc': '',
+          'enabled': False, 'm': alpha_msg(b'', case, ports)}
     D.MAX_MESSAGE_LEN = _ORIG_MAX if case['max'] is None else case['max']
     trace = [ev]
     try:
         udp = D.UDPListener(case['eq'], case['desc'], list(case['ifaces']), Log(), startup_broadcast=case['bcast'])
         sock = udp.sock
         ev['enabled'] = bool(udp.is_enabled)
-        ev['m'] = alpha_msg(udp._getMessage(65535), case, ports, with_glyphs=True)
+        ev['m'] = alpha_msg(udp._getMessage(widest), case, ports, with_glyphs=True)
     except Exception as e:
         ev['exc'] = type(e).__name__
         return trace
@@ -400,8 +413,8 @@ DISCOVER = ['discover', b'{"SECoP": "discover"}'.hex()]
 
 def build_case(g, b, mode, salt):
     desc = concretise(g, salt)
-    nports = (salt + b) % 3
-    ifs = IFACES[nports][salt % len(IFACES[nports])]
+    shape = SHAPES[(salt + b) % len(SHAPES)]
+    ifs = IFACES[shape][salt % len(IFACES[shape])]
     if mode == 'patched':
         eq = EQ_IDS[salt % len(EQ_IDS)]
         return {'eq': eq, 'desc': desc, 'ifaces': ifs, 'bcast': bool(salt & 1), 'max': overhead(eq) + b,
@@ -432,7 +445,7 @@ def _replay_build(item):
     n = 0
     if len(g) > 6:
         modes = modes[:1]                 # the two longest layers only with the patched constant
-    for b, dis, lo, hi in beh['exp']:
+    for b, dis, lo0, hi0, lo4, hi4 in beh['exp']:
         for mode in modes:
             salt = seed + idx + 7 * b + (0 if mode == 'patched' else 1)
             case = build_case(g, b, mode, salt)
@@ -441,6 +454,7 @@ def _replay_build(item):
             tr = execute(case)
             n += 1
             e = tr[0]
+            lo, hi = {0: (lo0, hi0), 4: (lo4, hi4)}[e['sl']]
             if e['o'] + b != e['max']:
                 raise MachineryError(f'gamma failed to realise budget {b}: {e["o"]} {e["max"]}')
             clause = 'build.no_exception' if e['exc'] else _build_clause(e['enabled'], e['m']['g'], g, dis, lo, hi)
@@ -482,15 +496,16 @@ def _replay_build(item):
 # ------------------------------------------------------------------ spec -> code: receive loop
 
 def loop_case(beh, idx, seed):
-    nports = beh[0]['nports']
     salt = seed + idx
+    shapes = [sh for sh in SHAPES if sh[0] == beh[0]['nports']]
+    shape = shapes[salt % len(shapes)]
     script = []
     for i, st in enumerate(beh[1:]):
         v = DGRAMS[st['cls']]
         script.append([st['cls'], v[(salt + 5 * i) % len(v)].hex()])
     script.append(DISCOVER)
     return {'eq': EQ_IDS[salt % len(EQ_IDS)], 'desc': 'Sample énvironment "x"\n', 'max': None, 'bcast': True,
-            'ifaces': IFACES[nports][salt % len(IFACES[nports])], 'script': script}
+            'ifaces': IFACES[shape][(salt // 2) % len(IFACES[shape])], 'script': script}
 
 
 def _msgs_ok(ev, mx):
@@ -650,11 +665,19 @@ def _random_loop(seed):
 
 
 def corrupted_traces():
-    """binding self test: one accepted execution and corruptions of single recorded fields, each with the
-    clause TLC has to name"""
-    case = {'eq': 'eq', 'desc': 'abc', 'ifaces': ['tcp://10767', 'tcp://7'], 'bcast': True, 'max': None,
-            'script': [['object', b'{}'.hex()], DISCOVER]}
-    base = execute(case)
+    """self test of the trace specification: one legal execution and corruptions of single recorded fields,
+    each with the clause TLC has to name"""
+    def msg(n, port, dest, g=()):
+        return {'len': n, 'utf8': True, 'json': True, 'obj': True, 'secop': True, 'eq': True, 'fw': True,
+                'desc': True, 'port': port, 'dest': dest, 'same': True, 'g': list(g)}
+    # a hand written legal execution: 'abc', two TCP ports, one foreign object, one request
+    base = [{'ev': 'build', 'o': 99, 'max': REAL_MAX, 'sl': 0, 'g': [1, 1, 1], 'nports': 2, 'bcast': True, 'exc': '',
+             'enabled': True, 'm': msg(102, 1, 'none', [1, 1, 1])},
+            {'ev': 'start', 'msgs': [msg(102, 1, 'bcast'), msg(98, 2, 'bcast')], 'exc': ''},
+            {'ev': 'dgram', 'cls': 'object', 'msgs': [], 'alive': True, 'exc': ''},
+            {'ev': 'dgram', 'cls': 'discover', 'msgs': [msg(102, 1, 'sender'), msg(98, 2, 'sender')], 'alive': True,
+             'exc': ''},
+            {'ev': 'end', 'reason': 'script_end', 'left': 0}]
     res = [(base, None)]
 
     def variant(clause, fn):
